@@ -53,6 +53,40 @@ def run(ctx):
     verdict, vs = ctx.validate("C09Trace.tla", "C09_trace.cfg", trace, timeout=2400)
     nviol, known = H.report(ctx, verdict["bad"], lambda i: {"cfg": cases[i]["cfg"]}, trace)
     st = verdict["stats"]
+
+    # binding self-test: the judge must object when one recorded element / one visited chunk is altered
+    def _alter_value(evs):
+        for e in evs:
+            if e.get("op") == "sel" and e.get("res") == "ok" and len(e.get("vals", [])) >= 2 and \
+                    all(0 < d["block"] <= d["stride"] and d["count"] > 0 for d in e["sel"]):
+                e["vals"][-1] += 1
+                return evs
+        return None
+
+    def _drop_element(evs):
+        for e in evs:
+            if e.get("op") == "sel" and e.get("res") == "ok" and len(e.get("vals", [])) >= 3 and \
+                    all(0 < d["block"] <= d["stride"] and d["count"] > 0 for d in e["sel"]):
+                del e["vals"][1]
+                return evs
+        return None
+
+    def _drop_chunk(evs):
+        for e in evs:
+            if e.get("op") == "iter" and e.get("res") == "ok" and len(e.get("visited", [])) >= 2:
+                e["visited"] = e["visited"][:-1]
+                return evs
+        return None
+
+    def _accept_invalid(evs):
+        for e in evs:
+            if e.get("op") == "sel" and e.get("res") == "err":
+                e["res"], e["vals"] = "ok", [0]
+                return evs
+        return None
+    selftest = H.binding_selftest(ctx, "C09Trace.tla", "C09_trace.cfg", trace,
+                                  [("element-altered", _alter_value), ("element-dropped", _drop_element),
+                                   ("chunk-not-visited", _drop_chunk), ("refusal-turned-into-success", _accept_invalid)])
     cov = {
         "unbounded_design_proof": {"tool": "apalache", "module": "spec/proofs/HyperslabLemmas.tla",
                                    "statement": "for all extents and valid selection parameters every selected index lies inside the extent, a proper selection lists "
@@ -68,7 +102,7 @@ def run(ctx):
         "samples": [cases[0]["cfg"], cases[ngen // 2]["cfg"], {"cfg": cases[ngen]["cfg"], "sels": cases[ngen]["sels"][:2]}],
         "states": gr.distinct, "transitions": gr.generated,
         "exhaustive": False,
-        "trace_stats": st, "trace_events": verdict["events"], "rejected": len(verdict["bad"]), "known_findings_matched": known,
+        "trace_stats": st, "trace_events": verdict["events"], "rejected": len(verdict["bad"]), "known_findings_matched": known, "binding_selftest": selftest,
     }
     H.write_evidence(ctx, LEVEL, cov, ASSUME, nviol)
     H.log("C09 %s: selections=%d valid=%d rejected=%d violations=%d known=%s wall=%.1fs" % (
